@@ -130,3 +130,69 @@ def futures(which_rpc: int, named: bool) -> bool:
             if res != ("FUTURE", kind, "RAW-OP", "OPERATIONS_CLIENT") + EXPECT[m]:
                 return False
         return True
+
+
+# ---------------------------------------------------------------------------- (C) operations client binding
+import ast as _ast
+from types import SimpleNamespace as _NS
+
+HOSTS = ["lib.googleapis.com", "library-emulator.internal.test:8443", "https://eu-lib.googleapis.com"]
+
+
+def _lift_ops_client(fname, cls_suffix):
+    path = os.path.join(OUT, "google/example/lr_v1/services/library/transports", fname)
+    text = open(path).read()
+    if CANARY == "ops-default-host":
+        text = text.replace("host=self._host,", "host=self.DEFAULT_HOST,")
+    tree = _ast.parse(text)
+    cls = [n for n in tree.body if isinstance(n, _ast.ClassDef) and n.name.endswith(cls_suffix)][0]
+    fn = [n for n in cls.body if isinstance(n, _ast.FunctionDef) and n.name == "operations_client"][0]
+    fn.decorator_list = []
+    fn.returns = None
+    mod = _ast.Module(body=[fn], type_ignores=[])
+    _ast.fix_missing_locations(mod)
+
+    class Rec:
+        def __init__(self, kind):
+            self.kind = kind
+
+        def __call__(self, *a, **k):
+            return (self.kind, a, tuple(sorted((x, repr(y)) for x, y in k.items() if x not in ("http_options",))), k.get("transport"))
+    ns = {"operations_v1": _NS(OperationsClient=Rec("OperationsClient"), OperationsAsyncClient=Rec("OperationsAsyncClient"),
+                               OperationsRestTransport=Rec("OperationsRestTransport"),
+                               AbstractOperationsClient=Rec("AbstractOperationsClient")),
+          "Dict": dict, "List": list}
+    exec(compile(mod, "emitted:" + fname + ":operations_client", "exec"), ns)
+    return ns["operations_client"]
+
+
+if OUT:
+    OPS = {k: _lift_ops_client(f, c) for k, (f, c) in {"grpc": ("grpc.py", "GrpcTransport"),
+                                                        "grpc_asyncio": ("grpc_asyncio.py", "GrpcAsyncIOTransport"),
+                                                        "rest": ("rest.py", "RestTransport")}.items()}
+
+
+def ops_binding(kind: int, host: int) -> bool:
+    """
+    pre: 0 <= kind <= 2 and 0 <= host <= 2
+    post: _
+    """
+    kind, host = conc(kind, 0, 2), conc(host, 0, 2)
+    with untraced():
+        k = ["grpc", "grpc_asyncio", "rest"][kind]
+        me = _NS(_operations_client=None, _logged_channel=("CHANNEL", HOSTS[host]), _grpc_channel=("RAW", HOSTS[host]),
+                 _host=HOSTS[host], DEFAULT_HOST="lib.googleapis.com", _credentials=("CRED", host), _scopes=("S", host))
+        c1 = OPS[k](me)
+        c2 = OPS[k](me)
+        if c1 is not c2:
+            return False          # cached on the instance
+        if k == "rest":
+            if c1[0] != "AbstractOperationsClient":
+                return False
+            tr = c1[3]
+            kw = dict(tr[2])
+            return tr[0] == "OperationsRestTransport" and kw.get("host") == repr(HOSTS[host]) and \
+                kw.get("credentials") == repr(("CRED", host)) and kw.get("scopes") == repr(("S", host))
+        want = "OperationsAsyncClient" if k == "grpc_asyncio" else "OperationsClient"
+        # the polling client sits on the SAME channel as the service's own stubs
+        return c1[0] == want and c1[1] == (("CHANNEL", HOSTS[host]),)
